@@ -45,6 +45,7 @@ type chunkReader struct {
 	call                     int
 	eofWith                  bool
 	burstAt, burstLen, reads int
+	prog                     *appsup.Progress
 }
 
 func (r *chunkReader) Read(p []byte) (int, error) {
@@ -67,6 +68,9 @@ func (r *chunkReader) Read(p []byte) (int, error) {
 	}
 	copy(p, r.data[r.pos:r.pos+n])
 	r.pos += n
+	if r.prog != nil && n > 0 {
+		r.prog.Tick()
+	}
 	if r.eofWith && r.pos >= len(r.data) {
 		return n, io.EOF
 	}
@@ -89,20 +93,19 @@ func check(c Case, o *stats.Obs) error {
 	}
 	defer os.RemoveAll(dir)
 	cfg := &jsonconfig.Config{DisplayMessages: c.Display, RecordMessages: c.Record, MessageLogDirectory: dir}
-	w := &appsup.LatencyWriter{}
+	prog := &appsup.Progress{}
+	w := &appsup.LatencyWriter{Prog: prog}
 	for _, d := range c.Delays {
 		w.Delays = append(w.Delays, time.Duration(d)*time.Microsecond)
 	}
 	done := make(chan struct{})
 	go func() {
-		rtcmfilter.HandleMessages(drive.StartTime, &chunkReader{data: input, chunks: c.Chunks, eofWith: c.EOFWith, burstAt: c.IdleBurstAt, burstLen: c.IdleBurstLen}, w, cfg)
+		rtcmfilter.HandleMessages(drive.StartTime, &chunkReader{prog: prog, data: input, chunks: c.Chunks, eofWith: c.EOFWith, burstAt: c.IdleBurstAt, burstLen: c.IdleBurstLen}, w, cfg)
 		close(done)
 	}()
-	select {
-	case <-done:
-	case <-time.After(60 * time.Second):
+	if !appsup.AwaitProgress(done, prog, 60*time.Second) {
 		o.Key = "no-return"
-		return fmt.Errorf("rtcmfilter HandleMessages did not return within 30 s (input %x)", input)
+		return fmt.Errorf("rtcmfilter HandleMessages neither returned nor read nor wrote anything for 60 s (input %x)", input)
 	}
 	// Quiescence: wait (bounded) until the output has the expected length; C11 decides whether it must be there at return.
 	appsup.WaitFor(20*time.Second, func() bool { return w.Len() >= len(want) })
